@@ -329,6 +329,8 @@ class CreditLedger(Monitor):
         self.progress_after_block = set()
         self.updates_delivered = 0
         self.retransmitted_bytes = 0
+        self.delivered_bytes = {}  # (receiver, sid) -> bytes handed to the application
+        self.delivery_checks = 0
 
     def attach(self, sim):
         super().attach(sim)
@@ -364,6 +366,11 @@ class CreditLedger(Monitor):
                 "uni": po.get("max_streams_uni_server", 128),
             }
             self.remembered_until = "pending"
+
+    def on_event(self, ep, ev, t):
+        if type(ev).__name__ == "StreamDataReceived":
+            k = (ep.name, ev.stream_id)
+            self.delivered_bytes[k] = self.delivered_bytes.get(k, 0) + len(ev.data)
 
     def _promote(self, t):
         new, old = self.fresh_client_limits, self.lim["client"]
@@ -461,6 +468,18 @@ class CreditLedger(Monitor):
             L = self.lim[side]
             hi = self.highest[side]
             sent = hi.get(sid, 0)
+            # bytes that were on the wire at least once are covered by credit already granted: losing them must not
+            # require fresh credit ("retransmissions consume no additional credit"), so after the fair phase the
+            # receiving application has them all, whatever is left of the limits
+            self.delivery_checks += 1
+            got = self.delivered_bytes.get((recv, sid), 0)
+            if got < min(sent, w) and self.sim.ep(recv) is not None and not self.sim.ep(recv).terminated and not self.sim.ep(side).terminated:
+                total = sum(hi.values())
+                why = "connection-credit-exhausted" if total >= L["max_data"] else ("stream-credit-exhausted" if sent >= self.stream_limit(side, sid) else "credit-left")
+                raise Violation("credit:sent-bytes-never-delivered:" + why,
+                                "%s stream %d: %d bytes were sent at least once (within the limits) but only %d reached the peer application by the end of the fair phase; "
+                                "stream limit %d, max_data %d (used %d): lost data was not retransmitted" % (side, sid, min(sent, w), got, self.stream_limit(side, sid), L["max_data"], total),
+                                {"highest": dict(hi), "delivered": {str(k): v for k, v in self.delivered_bytes.items()}})
             if sent >= w:
                 continue
             self.evaluations += 1
